@@ -8,11 +8,15 @@ sys.path.insert(0, VERIF)
 from kvlib.core import build_facts
 from kvlib.facts import norm, adt_shape
 
-out = {'fns': {}, 'fields': {}, 'adts': {}}
+out = {'fns': {}, 'fields': {}, 'adts': {}, 'params': {}}
 for cfg in ('default', 'nodefault', 'serde', 'assert_no_alloc', 'cpal-only', 'wav-only'):
     j = json.load(open(build_facts(cfg)))
     for f in j['fns']:
         out['fns'].setdefault(norm(f['path']), {'impl_self': f['impl_self'], 'impl_trait': f['impl_trait'], 'pub': f['pub'], 'sig': f['sig']})
+    for b in j['bodies']:
+        if b['krate'] == 'kira' and b['key'].startswith('D:') and '{closure' not in b['path']:
+            names = {d['v']['l']: d['name'] for d in b['debug'] if 'l' in d['v'] and not d['v']['p'] and 1 <= d['v']['l'] <= b.get('arg_count', 0)}
+            out['params'].setdefault(norm(b['path']), [names.get(i) for i in range(1, b.get('arg_count', 0) + 1)])
     for a in j['adts']:
         ap = norm(a['path'])
         if a['kind'] == 'Struct':
